@@ -333,6 +333,9 @@ func c14Baseline(c *Ctx, p *Prog) {
 		if sc == nil {
 			return
 		}
+		if o := sc.Origin(); o != nil {
+			sc = o // a generic helper: read the generic body
+		}
 		// the callee sorts what it returns
 		sorts := false
 		eachInstr(sc, func(_ *ssa.BasicBlock, in2 ssa.Instruction) {
